@@ -29,6 +29,15 @@ pub enum OpKind {
     Mget,
     /// MSET of the key and its same-slot sibling
     Mset,
+    Unlink,
+    GetSet,
+    SetEx,
+    Pexpire,
+    Strlen,
+    /// one-field hash key derived from the key (same slot): HSET / HGET / HDEL
+    HSet,
+    HGet,
+    HDel,
 }
 
 #[derive(Debug, Clone, Serialize, Deserialize)]
@@ -76,6 +85,14 @@ fn op_strategy() -> impl Strategy<Value = COp> {
             1 => Just(OpKind::Expire),
             1 => Just(OpKind::Mget),
             1 => Just(OpKind::Mset),
+            2 => Just(OpKind::Unlink),
+            1 => Just(OpKind::GetSet),
+            1 => Just(OpKind::SetEx),
+            1 => Just(OpKind::Pexpire),
+            1 => Just(OpKind::Strlen),
+            2 => Just(OpKind::HSet),
+            2 => Just(OpKind::HGet),
+            2 => Just(OpKind::HDel),
         ],
         0u8..3,
         prop_oneof![3 => 0u32..2000, 2 => 0u32..20000, 1 => 0u32..200000],
@@ -147,6 +164,13 @@ fn counter_of(k: &[u8]) -> Vec<u8> {
     v
 }
 
+fn hash_of(k: &[u8]) -> Vec<u8> {
+    let mut v = k.to_vec();
+    v.pop();
+    v.push(b'8');
+    v
+}
+
 fn sibling_of(k: &[u8]) -> Vec<u8> {
     let mut v = k.to_vec();
     let last = v.pop().unwrap_or(b'0');
@@ -163,8 +187,8 @@ struct Recorder {
 fn to_ret(kind_call: &Call, r: &RespVec) -> Ret {
     match (kind_call, r) {
         (_, Resp::Error(_)) => Ret::Unknown,
-        (Call::Get, Resp::Bulk(BulkStr::Nil)) => Ret::Val(None),
-        (Call::Get, Resp::Bulk(BulkStr::Str(s))) => Ret::Val(Some(s.clone())),
+        (Call::Get | Call::HGet | Call::GetSet(_), Resp::Bulk(BulkStr::Nil)) => Ret::Val(None),
+        (Call::Get | Call::HGet | Call::GetSet(_), Resp::Bulk(BulkStr::Str(s))) => Ret::Val(Some(s.clone())),
         (Call::Set(_), Resp::Simple(_)) => Ret::Ok,
         (_, Resp::Integer(i)) => std::str::from_utf8(i).ok().and_then(|s| s.parse::<i64>().ok()).map(Ret::Int).unwrap_or(Ret::Unknown),
         _ => Ret::Unknown,
@@ -236,6 +260,23 @@ pub async fn run_world(case: &DCase, ttl_of: &dyn Fn(u8) -> Option<Duration>, in
                     OpKind::Del => (cmdb(&[b"DEL", &k]), vec![(k.clone(), Call::Del)]),
                     OpKind::Exists => (cmdb(&[b"EXISTS", &k]), vec![(k.clone(), Call::Exists)]),
                     OpKind::Expire => (cmdb(&[b"EXPIRE", &k, b"1000000"]), vec![(k.clone(), Call::Touch)]),
+                    OpKind::Unlink => (cmdb(&[b"UNLINK", &k]), vec![(k.clone(), Call::Del)]),
+                    OpKind::GetSet => (cmdb(&[b"GETSET", &k, &uniq]), vec![(k.clone(), Call::GetSet(uniq.clone()))]),
+                    OpKind::SetEx => (cmdb(&[b"SETEX", &k, b"1000000", &uniq]), vec![(k.clone(), Call::Set(uniq.clone()))]),
+                    OpKind::Pexpire => (cmdb(&[b"PEXPIRE", &k, b"1000000000"]), vec![(k.clone(), Call::Touch)]),
+                    OpKind::Strlen => (cmdb(&[b"STRLEN", &k]), vec![(k.clone(), Call::Strlen)]),
+                    OpKind::HSet => {
+                        let kh = hash_of(&k);
+                        (cmdb(&[b"HSET", &kh, b"f", &uniq]), vec![(kh, Call::HSet(uniq.clone()))])
+                    }
+                    OpKind::HGet => {
+                        let kh = hash_of(&k);
+                        (cmdb(&[b"HGET", &kh, b"f"]), vec![(kh, Call::HGet)])
+                    }
+                    OpKind::HDel => {
+                        let kh = hash_of(&k);
+                        (cmdb(&[b"HDEL", &kh, b"f"]), vec![(kh, Call::HDel)])
+                    }
                     OpKind::Mget => (cmdb(&[b"MGET", &k, &k2]), vec![(k.clone(), Call::Get), (k2.clone(), Call::Get)]),
                     OpKind::Mset => {
                         let u2 = [uniq.clone(), b"b".to_vec()].concat();
@@ -371,6 +412,7 @@ async fn run(case: &DCase, obs: &mut Obs) -> Result<(), Fail> {
         let as_state = |v: &Option<Val>| -> State {
             match v {
                 Some(Val::Str(s)) => Some(s.clone()),
+                Some(Val::Hash(h)) => h.get(&b"f"[..]).cloned().or(Some(b"<hash without field f>".to_vec())),
                 Some(_) => Some(b"<non-string>".to_vec()),
                 None => None,
             }
@@ -449,7 +491,7 @@ pub fn check(case: &DCase, obs: &mut Obs) -> Result<(), Fail> {
     r
 }
 
-pub const RULE: &str = "a world with source, destination (and optional bystander) REAL proxies and stateful Redis stand-ins; 6..12 keys (2/3 inside the migrating range, with same-slot siblings), pre-populated or created mid-migration; 1..4 sequential clients with 3..14 operations each from {GET, SET unique, SETNX, APPEND, INCR, DEL, EXISTS, EXPIRE, MGET, MSET} aimed at a generated start proxy (MOVED followed); the real migration (PRECHECK/PRESWITCH/scan/pull/push/FINALSWITCH) started at a generated time, metadata delivered in a generated order, committed (dst then src) after a generated pause; per-message delays from a generated table (virtual time) on every message class, scan_count in {1,2,16}, backend_conn_num 1..3, active redirection on/off; oracle (1) per-key linearizability of the client-visible history against a sequential register-with-delete model (Wing-Gong search; error replies = unknown outcome), (2) after commit: every range key only on the destination with a value admissible after the history, others only on the source, untouched keys unchanged; non-trivial = a client operation on a range key overlaps the migration window and at least two of {scan, pull, push} transfers happened; distinct = hash of the case";
+pub const RULE: &str = "a world with source, destination (and optional bystander) REAL proxies and stateful Redis stand-ins; 6..12 keys (2/3 inside the migrating range, with same-slot siblings), pre-populated or created mid-migration; 1..4 sequential clients with 3..14 operations each from {GET, SET unique, SETNX, SETEX, GETSET, APPEND, STRLEN, INCR, DEL, UNLINK, EXISTS, EXPIRE, PEXPIRE, MGET, MSET, and HSET/HGET/HDEL on a one-field hash key of the same slot} aimed at a generated start proxy (MOVED followed); the real migration (PRECHECK/PRESWITCH/scan/pull/push/FINALSWITCH) started at a generated time, metadata delivered in a generated order, committed (dst then src) after a generated pause; per-message delays from a generated table (virtual time) on every message class, scan_count in {1,2,16}, backend_conn_num 1..3, active redirection on/off; oracle (1) per-key linearizability of the client-visible history against a sequential register-with-delete model (Wing-Gong search; error replies = unknown outcome), (2) after commit: every range key only on the destination with a value admissible after the history, others only on the source, untouched keys unchanged; non-trivial = a client operation on a range key overlaps the migration window and at least two of {scan, pull, push} transfers happened; distinct = hash of the case";
 
 pub fn run_prop(ctx: &Ctx, findings: &Findings) -> PropReport {
     let mut subs = vec![];
